@@ -71,24 +71,40 @@ fn ensure_detrand() {
     }
     let args: Vec<String> = std::env::args().skip(1).collect();
     let inflight = format!("/verif/sim/target/inflight.{}", std::process::id());
-    let _ = std::fs::remove_file(&inflight);
-    let status = std::process::Command::new(std::env::current_exe().unwrap()).args(&args).env("LD_PRELOAD", shim).env("FSIM_INFLIGHT", &inflight).status();
-    let status = match status {
-        Ok(s) => s,
-        Err(e) => {
-            eprintln!("HARNESS-ERROR: cannot start the simulator child: {e}");
-            std::process::exit(2);
-        }
-    };
-    let aborted = status.code().map(|c| c == 134).unwrap_or(true);
-    if !aborted {
+    // runs that die with a LISTED known finding are skipped and the batch is started again (at most a few times)
+    let mut skip: Vec<u64> = vec![];
+    for _attempt in 0..4 {
         let _ = std::fs::remove_file(&inflight);
-        std::process::exit(status.code().unwrap_or(2));
+        let status = std::process::Command::new(std::env::current_exe().unwrap())
+            .args(&args)
+            .env("LD_PRELOAD", shim)
+            .env("FSIM_INFLIGHT", &inflight)
+            .env("FSIM_SKIP", skip.iter().map(|x| x.to_string()).collect::<Vec<_>>().join(","))
+            .status();
+        let status = match status {
+            Ok(s) => s,
+            Err(e) => {
+                eprintln!("HARNESS-ERROR: cannot start the simulator child: {e}");
+                std::process::exit(2);
+            }
+        };
+        let aborted = status.code().map(|c| c == 134).unwrap_or(true);
+        if !aborted {
+            let _ = std::fs::remove_file(&inflight);
+            std::process::exit(status.code().unwrap_or(2));
+        }
+        // the child died: which run was it?
+        match supervise_abort(&args, shim, &inflight) {
+            Ok(known_idx) => skip.push(known_idx),
+            Err(code) => {
+                let _ = std::fs::remove_file(&inflight);
+                std::process::exit(code);
+            }
+        }
     }
-    // the child died: which run was it?
-    let code = supervise_abort(&args, shim, &inflight);
+    eprintln!("HARNESS-ERROR: the simulator child kept dying");
     let _ = std::fs::remove_file(&inflight);
-    std::process::exit(code);
+    std::process::exit(2);
 }
 
 /// Run indices the dead child had in flight (one 8-byte slot per worker; u64::MAX = idle).
@@ -100,21 +116,33 @@ fn inflight_runs(path: &str) -> Vec<u64> {
     v
 }
 
-fn supervise_abort(args: &[String], shim: &str, inflight: &str) -> i32 {
+/// Err(exit code) when the abort is a verdict (or a harness error); Ok(run index) when the aborting run matches a listed
+/// known finding (its KNOWN-FINDING line has been printed; the batch is to be repeated without that run).
+fn supervise_abort(args: &[String], shim: &str, inflight: &str) -> Result<u64, i32> {
     let exe = std::env::current_exe().unwrap();
     if args.first().map(|a| a == "--replay").unwrap_or(false) {
         // replaying a recorded abort aborts again: that is the reproduction
         let path = args.get(1).cloned().unwrap_or_default();
         let prop = std::fs::read_to_string(&path).ok().and_then(|t| serde_json::from_str::<serde_json::Value>(&t).ok()).and_then(|v| v["property"].as_str().map(|s| s.to_string())).unwrap_or_default();
         println!("replay {path}: the simulated process aborted (killed by a signal / abort())");
+        let shape: std::collections::BTreeMap<String, String> = std::fs::read_to_string(&path)
+            .ok()
+            .and_then(|t| serde_json::from_str::<batch::ReplayFile>(&t).ok())
+            .map(|rf| rf.violation.shape)
+            .unwrap_or_default();
+        let v = hist::Violation { property: prop.clone(), rule: "process-abort".into(), detail: String::new(), shape };
+        if let Some(k) = batch::load_known().matches(&v) {
+            println!("KNOWN-FINDING: property={prop} {} ({})", k.what, k.id);
+            return Err(0);
+        }
         println!("VIOLATION property={prop} replay={path}");
-        return 1;
+        return Err(1);
     }
     let prop = match args.first() {
         Some(p) if !p.starts_with("--") => p.clone(),
         _ => {
             eprintln!("HARNESS-ERROR: the simulator child aborted");
-            return 2;
+            return Err(2);
         }
     };
     let thorough = args.windows(2).any(|w| w[0] == "--tier" && w[1] == "thorough") || std::env::var("VERIF_TIER").map(|t| t == "thorough").unwrap_or(false);
@@ -130,8 +158,16 @@ fn supervise_abort(args: &[String], shim: &str, inflight: &str) -> i32 {
             .output();
         let Ok(out) = out else { continue };
         if out.status.code().map(|c| c == 134).unwrap_or(true) {
+            use std::os::unix::process::ExitStatusExt;
             let stderr = String::from_utf8_lossy(&out.stderr);
             let first = stderr.lines().find(|l| !l.trim().is_empty()).unwrap_or("").chars().take(300).collect::<String>();
+            let signal = match out.status.signal() {
+                Some(11) => "SIGSEGV".to_string(),
+                Some(6) | None => "SIGABRT".to_string(),
+                Some(n) => format!("signal {n}"),
+            };
+            let mut shape = std::collections::BTreeMap::new();
+            shape.insert("signal".to_string(), signal.clone());
             let input = batch::input_for(&prop, thorough, seed, idx);
             let rf = batch::ReplayFile {
                 property: prop.clone(),
@@ -140,7 +176,7 @@ fn supervise_abort(args: &[String], shim: &str, inflight: &str) -> i32 {
                 case: input.case,
                 sched: vec![],
                 io: vec![],
-                violation: hist::Violation { property: prop.clone(), rule: "process-abort".into(), detail: format!("run {idx} makes the process abort: {first}"), shape: Default::default() },
+                violation: hist::Violation { property: prop.clone(), rule: "process-abort".into(), detail: format!("run {idx} makes the process die ({signal}): {first}"), shape: shape.clone() },
                 minimised: false,
                 note: "the run aborts the process, so its streams could not be recorded: replayed from (seed, run index, tier)".into(),
                 build_variant: batch::build_variant().to_string(),
@@ -150,13 +186,17 @@ fn supervise_abort(args: &[String], shim: &str, inflight: &str) -> i32 {
             let _ = std::fs::create_dir_all("/verif/replays");
             let path = format!("/verif/replays/{prop}-{seed}-{idx}-abort.json");
             std::fs::write(&path, serde_json::to_string_pretty(&rf).unwrap()).unwrap();
-            println!("  [{prop}] process-abort: run {idx} makes the process abort: {first}");
+            if let Some(k) = batch::load_known().matches(&rf.violation) {
+                println!("KNOWN-FINDING: property={prop} {} [{}; run {idx} ({signal}), replay {path}]", k.what, k.id);
+                return Ok(idx);
+            }
+            println!("  [{prop}] process-abort: run {idx} makes the process die ({signal}): {first}");
             println!("VIOLATION property={prop} replay={path}");
-            return 1;
+            return Err(1);
         }
     }
     eprintln!("HARNESS-ERROR: the simulator child aborted but none of the runs in flight aborts on its own");
-    2
+    Err(2)
 }
 
 fn main() {
